@@ -6,6 +6,25 @@ PENDING = "check not built yet in this round (specification and driver in progre
 
 # id -> (level text, level note, technique, design ref)
 BUILT = {
+ "C01": ("Encoding.tla transcribes both id encoders over tokens (column stacking, sort, control detection, cumulative "
+         "renumbering, left merge, mapping validation); TLC enumerates every input over 3 names x 4 dose classes "
+         "(arity 1..3, every control name) incl. re-encoding of every row subset with the produced mapping and with one "
+         "entry withheld, and checks the clauses of C01 as invariants; exported cases are concretised (unicode, empty, "
+         "subnormal, -0.0 ...) and pushed through the real Screen/ExperimentSpace; larger random real screens are "
+         "projected to tokens and validated by TraceEncoding.",
+         "token projection (rank of names in code-point order, order/sign-preserving dose tokens) is trusted glue; "
+         "NaN doses and duplicate-key mappings are outside the quantifier.",
+         "TLA+ transcription + TLC exhaustive small scope; spec->code replay of exported cases; code->spec trace validation",
+         "5/C01"),
+ "C07": ("DistChunks.tla: chunk arithmetic checked by TLC for every n<=10/14 and n_chunks<=50/100 (disjoint, cover, "
+         "balanced, contiguous) and the assembly machine (any load order with repetition, duplicate suppression, densify "
+         "iff complete, result = single-chunk reference, symmetric, zero diagonal) explored exhaustively; every explored "
+         "(n,k) and every explored load history is replayed into the real functions/classes (compute with a recording "
+         "metric, save, load, concat, to_dense); random larger real histories incl. zero distances and more chunks than "
+         "pairs are validated step by step by TraceDistChunks, which reuses the Load/Densify actions.",
+         "values compared by IEEE bit pattern; the metric's arithmetic is trusted beyond symmetry/sign/zero-on-identical.",
+         "TLA+ state machine + TLC exhaustive; spec->code replay of all explored histories; code->spec trace validation",
+         "5/C07"),
  "C15": ("TLC explores the register-level transcription of the unranking generator exhaustively for every "
          "(n<=18/36, k<=4, index) and checks rank(out)=index, strict descent, range and agreement with the "
          "mathematical unranking; every explored point is replayed into get_combination_at_sorted_index; real calls in "
